@@ -1278,7 +1278,11 @@ func (r *Resolver) getTrigger(id uint64) (*trigger, bool) {
 
 // markTriggerInitialized marks a trigger as initialized and reports it.
 func (r *Resolver) markTriggerInitialized(triggerID uint64) {
-	trig, ok := r.getTrigger(triggerID)
+	// Hold r.mu across lookup, Store and Inc: removals read initialized under r.mu,
+	// so a removal can no longer slip in between and skip its TriggerCountDec.
+	r.mu.Lock()
+	defer r.mu.Unlock()
+	trig, ok := r.triggers[triggerID]
 	if !ok {
 		return
 	}
